@@ -14,18 +14,22 @@ CONFIG = {'gen': ['SmbCommands'],
              'Go slice semantics incl. capacity of Data.Bytes and of the stream built by GetBytesStream (runtime growth policy 8,16,…,512) '
              'as modelled in SmbIR/SmbCmd',
              'nested wire types through the C06 models (Manticore/Model/C06.lean, SmbCodecs adapters)'],
- 'technique': 'Lean 4: kernel-decided static predicates (Mirror, known-finding classification) over marshal/unmarshal programs regenerated '
+ 'technique': 'Lean 4: generic round-trip theorem over the command IR (induction over programs) + kernel-decided static predicates (Mirror, known-finding classification) over marshal/unmarshal programs regenerated '
               'from /repo on every run by a go/ast translator; executable IR semantics tied to the Go code by differential correspondence '
               'on all 114 commands; round-trip oracle on the same inputs',
- 'level_text': 'The Marshal and Unmarshal bodies of all 115 command structures are re-translated from /repo into a small imperative IR on '
-               'every run; the kernel decides (decide +kernel) that exactly 84 structures have mirror-image programs (same slots, order, '
-               'widths, byte order, length dependencies) and that the structural round-trip defects are exactly the 26 recorded ones '
-               '(non_mirror_commands, known_roundtrip_findings, command_count). The IR semantics (runM/runU/encodeCmd/decodeCmd) is '
-               'executed by the driver on the same field assignments as the real code for all 114 factory-reachable commands, and the real '
-               'code is compared with the round-trip specification (decode(encode v) = v, re-encode identical, slot locality) on '
-               "internally consistent assignments. PARTIAL: the generic soundness theorem 'Mirror c -> Consistent c v -> decodeCmd c "
-               "(encodeCmd c v) = ok v' is proved only for … (see Props/C04.lean); for the 31 non-mirror commands the round trip is "
-               'decided by the correspondence runs only.',
+'level_text': 'The Marshal and Unmarshal bodies of all 115 command structures are re-translated from /repo into a small imperative IR on '
+               'every run; the kernel decides (decide +kernel) that exactly 83 structures satisfy Mirror (same slots, order, widths, byte '
+               'order, length dependencies; no field changed after it is emitted; offset reset between blocks; lengths read before their '
+               'buffers; guards no larger than the reads they protect; every declared field on the wire) and that the structural '
+               'round-trip defects are exactly the 26 recorded ones (non_mirror_commands, known_roundtrip_findings, command_count). The '
+               'generic soundness theorem is proved for all field values: mirror_roundtrip (Mirror c -> LawfulCodecs C T -> consistent C c '
+               'v -> decodeCmd (encodeCmd v) = ok d with every declared field equal to the sender after Marshal), with its layers '
+               'marshal_is_layout / unmarshal_reads_layout, the re-encoding corollary mirror_reencode, slot_locality, the instance '
+               'std_lawful for the C06 models, and smb_roundtrip / smb_reencode for the 83 regenerated Mirror commands. The IR semantics '
+               '(runM/runU/encodeCmd/decodeCmd) is executed by the driver on the same field assignments as the real code for all 114 '
+               'factory-reachable commands, and the real code is compared with the round-trip specification (decode(encode v) = v, '
+               're-encode identical, slot locality) on internally consistent assignments. For the 32 non-mirror commands the round trip '
+               'is decided by the correspondence runs only.',
  'level_note': 'Trusted: Lean kernel; axioms propext, Classical.choice, Quot.sound; the extractor and the IR semantics are tied to the Go '
                'code by differential testing (bounded); C06 models of nested types; known findings are recognised by Lean predicates on '
                'the extracted programs, one key per command.'}
